@@ -170,6 +170,21 @@ func (w *World) Structural() []structural {
 		var early []string
 		fns := []*ssa.Function{f}
 		fns = append(fns, f.AnonFuncs...)
+		// helpers without contract that f executes in place are part of f (a collecting loop may have been moved there)
+		seenFn := map[*ssa.Function]bool{f: true}
+		for i := 0; i < len(fns) && len(fns) < 64; i++ {
+			for _, b := range fns[i].Blocks {
+				for _, in := range b.Instrs {
+					if c, ok := in.(*ssa.Call); ok {
+						if callee := c.Call.StaticCallee(); callee != nil && !seenFn[callee] && w.inlinable(callee) {
+							seenFn[callee] = true
+							fns = append(fns, callee)
+							fns = append(fns, callee.AnonFuncs...)
+						}
+					}
+				}
+			}
+		}
 		for _, g := range fns {
 			for _, h := range g.Blocks {
 				// h is a loop header if one of its predecessors is dominated by it
